@@ -146,7 +146,10 @@ def check_optimiser_call(ck, repo, f: FuncInfo):
         if x0 is not None:
             leaves(x0, False, lv)
         # admitted: the orders themselves and the NUMBER of measurements (the default orders are derived from it); never a measured value
-        bad = [t for t in lv if t[0] in ("opaque", "call") or (t[0] == "sym" and t[1] not in ("n", "m", "_n", "_m") and not t[1].startswith("len("))]
+        own = set(f.params) | set(f.kwonly)     # a start vector handed in by the caller is the caller's choice, like the method
+        bad = [t for t in lv if (t[0] in ("opaque", "call") and not any(str(t[1]) == p or str(t[1]).startswith(p + "[") for p in own if p != "data"))
+               or (t[0] == "sym" and t[1] not in ("n", "m", "_n", "_m") and not t[1].startswith("len(")
+                   and not any(t[1] == p or t[1].startswith(p + "[") or t[1].startswith(p + ".") for p in own if p != "data"))]
         ck.ob("P2", f.qualname, "optimiser start vector is a constant or depends only on the orders", f.loc(), x0 is not None and not bad,
               found=lambda: ("no x0" if x0 is None else "depends on %s" % sorted(set(bad))[:6]))
         meth = kw.get("method")
